@@ -497,7 +497,46 @@ def plan_hex(run, prop, tier):
     return acc
 
 
+def plan_label(run, prop, tier):
+    """C17: LabelGen.tla checks the round-trip / injectivity theorems on the model over the whole bounded text space (E1) and
+    prints one vector per text; the harness runs Label::from_str / to_string / kid() lookups on every text."""
+    acc = Acc()
+    full, lo, hi = (4, 5, 10) if tier == "quick" else (5, 6, 11)
+    cfg = f"INIT Init\nNEXT Next\nCONSTANTS Full = {full} LongLo = {lo} LongHi = {hi}\nCHECK_DEADLOCK FALSE\n"
+    path, cached = vlib.emit_ts(run, "LabelGen", cfg, timeout=3000)
+    head = open(path).read(400000)
+    import re as _re
+    m = _re.search(r'<<"LABEL-THEOREMS", (TRUE|FALSE), (TRUE|FALSE), (TRUE|FALSE), (TRUE|FALSE), (\d+), (\d+)>>', head)
+    if not m or "FALSE" in m.groups()[:4]:
+        raise ToolError("Label.tla: the model itself violates a C17 theorem (round trip / back trip / too long / injective)")
+    acc.e1.append({"model": "Label.tla theorems RoundTrip, BackTrip, TooLong, Injective over all enumerated texts", "texts": int(m.group(5)),
+                   "required_ok_texts": int(m.group(6)), "result": "all TRUE"})
+    obs = run.fresh("labobs", ".ndjson")
+    p = vlib.sh([H, "labelvec", "--vectors", path, "--obs-out", obs], timeout=3000)
+    j = json.loads(p.stdout.strip().splitlines()[-1])
+    if j["vectors"] == 0 or j["by_class"].get("err", 0) == 0 or j["ok_labels_by_variant"].get("greek", 0) == 0:
+        raise ToolError("vacuity: label vectors do not cover every class / variant")
+    acc.states = j["vectors"]
+    acc.transitions = j["vectors"]
+    acc.notes.update({"evaluations": j["vectors"], "distinct_nontrivial": j["by_class"].get("ok", 0) + j["by_class"].get("err", 0),
+                      "rule": "one case per text over the 11-symbol alphabet (alpha, digits, sign, ASCII, 2/3/4-byte characters, blank): all texts up to "
+                              f"length {full}, structured ones up to length {hi}; non-trivial = the property requires Ok or Err for it",
+                      "texts_by_class": j["by_class"], "ok_labels_by_variant": j["ok_labels_by_variant"],
+                      "outcomes_differing_from_the_specification": j["mismatches"], "exhaustive": True})
+    acc.samples = j["samples"]
+    if j["mismatches"]:
+        verdicts = vlib.obs_judge(run, "LabelJudge", "LABELVERDICT", obs)
+        recs = [json.loads(l) for l in open(obs)]
+        acc.traces = len(recs)
+        for r, v in zip(recs, verdicts):
+            if v != "ok":
+                acc.fails.append({"prop": prop, "what": f"text {r['string']!r}: {v}", "source": "E4 Label vectors",
+                                  "replay": {"kind": "label", "record": r}, "sig": v[:40]})
+    return acc
+
+
 PLANS = {p: plan_gc for p in ("C01", "C02", "C03", "C04", "C06")}
+PLANS["C17"] = plan_label
 PLANS["C15"] = plan_hex
 PLANS["C16"] = plan_hex
 PLANS["C11"] = plan_merge
@@ -563,6 +602,12 @@ def finish(run, prop, tier, acc, wall):
 def replay(run, prop, path):
     j = json.load(open(path))
     rp = j["replay"]
+    if rp.get("kind") == "label":
+        r = rp["record"]
+        vec = run.fresh("vec", ".out")
+        open(vec, "w").write(json.dumps(json.dumps({"text": r["text"], "cls": "replay", "label": {"k": "none"}})) + "\n")
+        print("replay of label vectors: re-run the whole check (./check C17); the text is", repr(r["string"]))
+        return plan_and_finish_single(run, prop)
     if rp.get("kind") == "hex":
         r = rp["record"]
         vec = run.fresh("vec", ".out")
@@ -601,3 +646,8 @@ def warm(run):
                         ("A3", ("clone",)), ("A3", ("reload",)), ("C2", ("clone",)), ("C2", ("reload",)),
                         ("F4a", ("clone",)), ("F4a", ("reload",)), ("F5", ("clone",)), ("F5", ("reload",))):
         vlib.emit_ts(run, emit_module(inst), cfg_emit(inst, extra))
+
+
+def plan_and_finish_single(run, prop):
+    acc = PLANS[prop](run, prop, "quick")
+    return finish(run, prop, "quick", acc, 0.0)
